@@ -33,6 +33,12 @@ class Spec:
         self.sensitive = {"restart": 0, "stale_params": 0, "offset": 0}
         self.param_changed_since_last = False
         self.prev_params: dict | None = None
+        # the caller's own time-point arrays: a grid that recurs in a history is handed over as the same float64 array
+        # object again, the way a script re-uses one np.linspace for several runs
+        self.grids: dict[tuple, np.ndarray] = {}
+
+    def grid(self, points: list[float]) -> np.ndarray:
+        return self.grids.setdefault(tuple(points), np.array(points, dtype=float))
 
     @property
     def t_reached(self) -> float:
@@ -191,7 +197,7 @@ def execute(sim: Any, spec: Spec, op: dict) -> tuple[list[dict], bool]:
         if k == "simulate":
             sim.simulate(op["t_end"], steps=op.get("steps"))
         elif k == "simulate_tc":
-            sim.simulate_time_course(np.array(op["points"], dtype=float))
+            sim.simulate_time_course(spec.grid(op["points"]))
         elif k == "update_parameter":
             sim.update_parameter(op["name"], op["value"])
         elif k == "update_parameters":
@@ -217,7 +223,7 @@ def execute(sim: Any, spec: Spec, op: dict) -> tuple[list[dict], bool]:
             sim.simulate_protocol(make_protocol([(d, v) for d, v in op["steps"]]), time_points_per_step=op["n"])
         elif k == "protocol_tc":
             sim.simulate_protocol_time_course(
-                make_protocol([(d, v) for d, v in op["steps"]]), np.array(op["points"], dtype=float),
+                make_protocol([(d, v) for d, v in op["steps"]]), spec.grid(op["points"]),
                 time_points_as_relative=bool(op.get("relative")),
             )
         else:
